@@ -2555,7 +2555,15 @@ class L4Object(object):
         else:
             raise NotImplementedError(f"This syntax is unknown: '{syntax}'")
 
-        if "eq " in port_spec.strip():
+        if "neq " in port_spec.strip():
+            port_str = re.split(r"\s+", port_spec)[-1]
+            neq_port = int(ports.get(port_str, port_str))
+            if not (1 <= neq_port <= 65535):
+                raise RequirementFailure()
+            tmp = set(range(1, 65536))
+            tmp.remove(neq_port)
+            self.port_list = sorted(tmp)
+        elif "eq " in port_spec.strip():
             port_tmp = re.split(r"\s+", port_spec)[-1].strip()
             eq_port = int(ports.get(port_tmp, port_tmp))
             if not (1 <= eq_port <= 65535):
